@@ -966,7 +966,26 @@ type opEntry struct {
 	f    func()
 }
 
+// RegisterOp adds an op to the grammar from another file of this package (use it from init()).
+func RegisterOp(name string, f func(s *Sim)) { extraOps = append(extraOps, extraOp{name, f}) }
+
+type extraOp struct {
+	name string
+	f    func(s *Sim)
+}
+
+var extraOps []extraOp
+
 func (s *Sim) opTable() []opEntry {
+	tab := s.baseOpTable()
+	for _, e := range extraOps {
+		e := e
+		tab = append(tab, opEntry{e.name, func() { e.f(s) }})
+	}
+	return tab
+}
+
+func (s *Sim) baseOpTable() []opEntry {
 	return []opEntry{
 		{"block", func() { s.NextBlock(0) }},
 		{"epoch", func() { s.NextEpoch() }},
